@@ -36,11 +36,11 @@ pub fn parse_mterm(s: &Sx) -> Option<MTerm> {
     }
 }
 
-type MLeaf = &'static mut Matrix<i64>;
-type MDyn = Box<dyn MatrixMut<i64>>;
-type Ptr = *mut Matrix<i64>;
+pub(super) type MLeaf = &'static mut Matrix<i64>;
+pub(super) type MDyn = Box<dyn MatrixMut<i64>>;
+pub(super) type Ptr = *mut Matrix<i64>;
 
-fn mleaf(rows: usize, cols: usize, data: &[i64]) -> Option<(MLeaf, Ptr)> {
+pub(super) fn mleaf(rows: usize, cols: usize, data: &[i64]) -> Option<(MLeaf, Ptr)> {
     let data = data.to_vec();
     let m = guarded(move || Matrix::from_flat_row_major((rows, cols), data))?;
     let ptr = Box::into_raw(Box::new(m));
@@ -192,7 +192,7 @@ macro_rules! owned_forms {
     }};
 }
 
-fn forms<S: MatrixMut<i64> + NoInteriorMutability>(
+pub(super) fn forms<S: MatrixMut<i64> + NoInteriorMutability>(
     mk: &dyn Fn() -> (S, Ptr),
     order: usize,
     mode: usize,
@@ -296,7 +296,7 @@ fn matrix_forms(
 }
 
 /// MatrixView's mutable iterator methods (the view is the owner of the exclusive borrow).
-fn view_mut_forms<S: MatrixMut<i64> + NoInteriorMutability>(
+pub(super) fn view_mut_forms<S: MatrixMut<i64> + NoInteriorMutability>(
     mk: &dyn Fn() -> (S, Ptr),
     order: usize,
     wi: bool,
